@@ -88,3 +88,12 @@ pub enum PUEnum {
     B(be::U16, u8),
     C(PUStruct),
 }
+
+/// unsized enum with three-field variants whose middle field needs padding (small, big, small alignments)
+#[flat(sized = false, default = true)]
+pub enum UEnum3 {
+    #[default]
+    A,
+    B(u8, u32, u8),
+    C { id: u8, key: u16, items: FlatVec<u8, u8> },
+}
